@@ -89,6 +89,7 @@ func (c *ReplayCache) Add(id string, salt []byte) bool {
 	defer c.mutex.Unlock()
 	if c.capacity == 0 {
 		// Cache is disabled, so every salt is new.
+		vtrace("replay.add", int64(hash), 1)
 		return true
 	}
 	if _, ok := c.active[hash]; ok {
